@@ -378,12 +378,18 @@ type verifFinalisation struct {
 type verifBlockState struct {
 	*state.BlockState
 	mu    sync.Mutex
+	seq   sync.Mutex
 	Calls []verifFinalisation
 	// OnFinalise (optional) is called after every SetFinalisedHash call.
 	OnFinalise func(f verifFinalisation)
 }
 
 func (b *verifBlockState) SetFinalisedHash(h common.Hash, round, setID uint64) error {
+	// grandpa22: the real call and its record are one critical section, so that the order of the records is
+	// the order in which the BlockState (which serialises the calls itself) performed them (C22 checks the
+	// per-node order); this is the only difference to the file of engine `grandpa`
+	b.seq.Lock()
+	defer b.seq.Unlock()
 	err := b.BlockState.SetFinalisedHash(h, round, setID)
 	f := verifFinalisation{Hash: h, Round: round, SetID: setID, Err: err}
 	b.mu.Lock()
